@@ -139,13 +139,14 @@ def impl_builtin(case):
     n, b = case["n"], case["b"]
     try:
         det = MW(_mk_score(case["score"]), bandwidth=b, threshold_scale=case["scale"], level=case["level"],
-                 min_detection_interval=case["mdi"]).fit(X)
+                 min_detection_interval=case["mdi"]).fit(core.wrap_container(case, X))
         thr = float(det.threshold_)
+        W = lambda a: core.wrap_container(case, a)  # noqa: E731  (ndarray or DataFrame)
         # the same fitted detector (same threshold) is then applied to the reversed series, and
         # once more to the original one: results must not depend on what it saw before
-        s, cps = _scores_cps(det, X)
-        s_rev, cps_rev = _scores_cps(det, X[::-1].copy())
-        s2, cps2 = _scores_cps(det, X)
+        s, cps = _scores_cps(det, W(X))
+        s_rev, cps_rev = _scores_cps(det, W(X[::-1].copy()))
+        s2, cps2 = _scores_cps(det, W(X))
         if s2 != s or cps2 != cps:
             return {"outcome": "ok", "thr": thr, "scores": s2, "cps": cps2, "scores_rev": s_rev, "cps_rev": cps_rev,
                     "tab": {}, "default_thr": 0.0, "unstable": [s, cps]}
